@@ -198,6 +198,18 @@ Members(lab) == TLCEval([L \in Range(lab) |-> {i \in U : lab[i] = L}])
 MinCost(name, lab) ==
   LET mem == Members(lab) IN CostFix(name, lab, mem, [L \in DOMAIN mem |-> INF])
 
+(* A join-semilattice analysis in which EVERY e-node contributes (not only   *)
+(* the best one): the set of leaf operators below a class.  make(leaf) =     *)
+(* {operator}, make(node) = union of the children's data, merge = union;     *)
+(* the datum of a class is the least fixpoint over its e-nodes (C14).        *)
+RECURSIVE LeafFix(_, _, _)
+LeafFix(lab, mem, s) ==
+  LET s2 == TLCEval([L \in DOMAIN mem |->
+               UNION {IF chidx[i] = << >> THEN {us[i].op}
+                      ELSE UNION {s[lab[chidx[i][k]]] : k \in DOMAIN chidx[i]} : i \in mem[L]}])
+  IN IF s2 = s THEN s ELSE LeafFix(lab, mem, s2)
+LeafOps(lab) == LET mem == Members(lab) IN LeafFix(lab, mem, [L \in DOMAIN mem |-> {}])
+
 (***************************************************************************)
 (* The state machine                                                        *)
 (***************************************************************************)
